@@ -141,8 +141,13 @@ func (d *driver) generate() {
 		d.addDec(wrap1(dyn(el(kBytes, 0, 0))), b, 0, "corpus:alias-bomb")
 		d.addDec(wrap1(dyn(dyn(dyn(el(kUint, 8, 0))))), b, 0, "corpus:alias-bomb")
 	}
+	// ... and the large one, implementation only (known finding C11/alias-bomb-superlinear)
+	d.aliasBombWitness()
 	// DecodeABIData at a non-zero offset, at and beyond the end
-	for _, off := range []int{0, 4, 32, 64, 65, 1000} {
+	// (1<<31, 1<<62-64: the caller's offset is a Go int; the model's offsets are mathematical integers
+	// and agree with the code as long as offset + 32 and the sums with 32-bit words from the data do not
+	// wrap, i.e. below 2^62 - declared in props/C11.json; DecodeABIData(b, math.MaxInt64-10) panics)
+	for _, off := range []int{0, 4, 32, 64, 65, 1000, 1 << 31, 1<<62 - 64} {
 		d.addDec(tup(u256, el(kBytes, 0, 0)), cat(r.Bytes(4), wordInt(7), wordInt(64), wordInt(3), padRight([]byte{1, 2, 3})), off, "corpus:offset-arg")
 	}
 	// no parameters at all
